@@ -87,7 +87,7 @@ class Illegal(Exception):
     pass
 
 
-def lex(text, split_keywords=False):
+def lex(text, split_keywords=False, eof_closes_comment=False):
     """-> list of (type, text).  Raises Illegal for characters that belong to no token, Ambiguous where the
     documentation supports two readings (unterminated or nested block comment, the single word `elseif`)."""
     toks = []
@@ -105,6 +105,9 @@ def lex(text, split_keywords=False):
         if text.startswith("/*", i):
             j = text.find("*/", i + 2)
             if j < 0:
+                if eof_closes_comment:
+                    i = n  # reading "the comment simply runs to the end of the text"
+                    continue
                 raise Ambiguous("unterminated block comment")
             if "/*" in text[i + 2:j]:
                 raise Ambiguous("/* inside a block comment (README claims nesting)")
@@ -165,7 +168,16 @@ def classify(text):
     try:
         t1 = lex(text)
         v1 = accepts([t for t, _ in t1])
-    except Ambiguous:
+    except Ambiguous as a:
+        if "unterminated" in str(a):
+            # two readings: an unterminated comment is an error (reject) or it runs to the end of the text.  If the second
+            # reading rejects as well, the text is invalid under both.
+            try:
+                t3 = lex(text, eof_closes_comment=True)
+                if not accepts([t for t, _ in t3]):
+                    return "reject"
+            except (Ambiguous, Illegal):
+                pass
         return "ambiguous"
     except Illegal:
         v1 = False
@@ -203,3 +215,5 @@ def selftest(repo_programs_dir="/repo/tests/unit/test_programs"):
         assert classify(b) == "reject", b
     assert classify("def e { if a == 1 { return 1 weighted 1 } elseif a == 2 { return 1 weighted 1 } }") == "ambiguous"
     assert classify("def e { /* /* x */ return 1 weighted 1 }") == "ambiguous"
+    assert classify('def e { return 1 weighted 1 } /* open') == "ambiguous"
+    assert classify('def e { return 1 weighted 1 /* open }') == "reject"
